@@ -240,6 +240,26 @@ func c07Recipe(r *rand.Rand) *Case {
 	for _, i := range r.Perm(len(c07FreshPaths))[:r.Intn(7)] {
 		g.fresh = append(g.fresh, c07FreshPaths[i])
 	}
+	// trailing-slash pair (1 recipe in 4): the same package spelled with and without a trailing
+	// slash, hinted under DIFFERENT names ("a.b/yaml" -> n, "a.b/yaml/" -> nv2).  These are two
+	// different paths with independent hints; one spelling is always referenced, the other in
+	// two thirds of the recipes.  The hints sit in the ImportNames map (2/3) or in two separate
+	// ImportName calls (1/3).
+	pairFirst, pairSecond := "", ""
+	if r.Intn(4) == 0 {
+		base := pick(r, slashPairBases)
+		pairFirst, pairSecond = base, base+"/"
+		if r.Intn(2) == 0 {
+			pairFirst, pairSecond = pairSecond, pairFirst
+		}
+		for _, p := range []string{base, base + "/"} {
+			if !has(g.body, p) {
+				g.body = append(g.body, p)
+			}
+		}
+		r.Shuffle(len(g.body), func(a, b int) { g.body[a], g.body[b] = g.body[b], g.body[a] })
+		g.tag("trailing-slash-pair")
+	}
 	var h hist.History
 	local := ""
 	if len(g.body) > 0 && r.Intn(4) == 0 {
@@ -259,7 +279,7 @@ func c07Recipe(r *rand.Rand) *Case {
 	nin := c07Size(r, 3, 50)
 	var pairs [][2]string
 	for _, p := range g.body {
-		if len(pairs) < nin && r.Intn(3) == 0 {
+		if len(pairs) < nin && r.Intn(3) == 0 && p != pairFirst && p != pairSecond {
 			pairs = append(pairs, [2]string{p, pick(r, namePool)})
 		}
 	}
@@ -271,10 +291,25 @@ func c07Recipe(r *rand.Rand) *Case {
 	for i := 0; len(pairs) < nin; i++ {
 		pairs = append(pairs, [2]string{fmt.Sprintf("unused.host/u%02d", i), pick(r, namePool)})
 	}
+	var pairOps hist.History
+	if pairFirst != "" {
+		n := pick(r, namePool)
+		if r.Intn(3) > 0 {
+			pairs = append(pairs, [2]string{pairFirst, n}, [2]string{pairSecond, n + "v2"})
+			nin = len(pairs)
+			g.tag("trailing-slash-pair=importnames")
+		} else {
+			pairOps = hist.History{{Kind: "importname", F: 0, A: pairFirst, B: n}, {Kind: "importname", F: 0, A: pairSecond, B: n + "v2"}}
+			g.tag("trailing-slash-pair=importname-calls")
+		}
+	}
 	r.Shuffle(len(pairs), func(a, b int) { pairs[a], pairs[b] = pairs[b], pairs[a] })
 	setup = append(setup, hist.Op{Kind: "importnames", F: 0, Pairs: pairs})
 	g.sawMap(nin)
 	g.tag("importnames=" + c07Bucket(nin, 1, 4, 20))
+	for _, op := range pairOps { // behind the map: these calls are the final hints of the two spellings
+		setup = append(setup, op)
+	}
 	for i := r.Intn(3); i > 0 && len(g.body) > 0; i-- {
 		op := hist.Op{Kind: pick(r, []string{"importname", "importalias"}), F: 0, A: pick(r, g.body), B: pick(r, namePool)}
 		if op.Kind == "importalias" && r.Intn(4) == 0 {
@@ -320,7 +355,10 @@ func c07Recipe(r *rand.Rand) *Case {
 		imported[p] = true
 	}
 	for i, p := range g.body {
-		if r.Intn(3) > 0 {
+		if r.Intn(3) > 0 || p == pairFirst {
+			if p == pairSecond {
+				g.tag("trailing-slash-pair-both-referenced")
+			}
 			g.keyable = append(g.keyable, i)
 			if p != local {
 				imported[p] = true
